@@ -3,12 +3,13 @@
  Observer for the second output: the real Datadog client (the shared
  baseoutput client over an HTTP "connection": synchronous request, status >= 300
  or a transport error is a failed send, anonymous immediate acknowledgement,
- Close is a no-op) against a scripted intake (drv/dd).  The clauses of C02 / C01
+ Close cancels the request in flight) against a scripted intake (drv/dd).  The clauses of C02 / C01
  / C05 / C18 as they read for this connection type:
    ConfirmOnlyAfterSuccess   a chunk is confirmed to the buffer only after the intake answered 2xx to it
    ResolvedOnce              every chunk the client took is confirmed or handed back, exactly once; nothing after OnFinished
    OldestFirst               a chunk reaches the intake for the first time only when every older one was answered 2xx
-   StopBounded               OnFinished follows the stop within the bound of the configured timeouts
+   StopBounded               OnFinished follows the stop within a bound that does not depend on httpTimeout (Close ends a
+                             request the intake never answers)
    EventuallyDelivered       with an intake that answers 2xx from some point on, every chunk is confirmed
  ***************************************************************************)
 EXTENDS Integers, Sequences, FiniteSets, TLC, Json
